@@ -128,12 +128,12 @@ comp = Component("histories-of-one-configuration",
                  "generated complete HTTP(S) configurations (random get/post/server programs); operations: views, C2Http with each key "
                  "variant, client dry-run, profile generation, get/post/server transform+recover, mutation attempts on the four "
                  "mappings; ALL sequences of length <= 2 (quick) / <= 3 (thorough) over the 10 operations plus random sequences of "
-                 "length 4-12 (60 quick / 3000 thorough); after every operation: views == fresh snapshot and result == result on a "
+                 "length 4-12 (60 quick / 1000 thorough); after every operation: views == fresh snapshot and result == result on a "
                  "fresh configuration")
 c_mut = Component("mappings-reject-mutation", "set / delete / insert / clear / update / pop on settings, raw_settings, settings_by_index, "
                   "raw_settings_by_index of every generated configuration")
 
-NCFG = 2 if TIER == "quick" else 6
+NCFG = 2 if TIER == "quick" else 3
 for ci in range(NCFG):
     blk, desc = cfggen.config_block(rng, https=bool(ci % 2))
     fresh = lambda: BeaconConfig(blk)     # noqa: E731
@@ -145,7 +145,7 @@ for ci in range(NCFG):
     c_mut.case(ci, ok, witness={"config": desc, "attempts": expected[-1]})
     maxlen = 2 if TIER == "quick" else 3
     seqs = [s for n in range(1, maxlen + 1) for s in itertools.product(range(len(OPS)), repeat=n)]
-    for _ in range(60 if TIER == "quick" else 3000):
+    for _ in range(60 if TIER == "quick" else 1000):
         seqs.append(tuple(rng.randrange(len(OPS)) for _ in range(rng.randrange(4, 13))))
     for seq in seqs:
         bc = fresh()
